@@ -5,7 +5,8 @@ From Coq Require Import List Arith Bool ZArith QArith Permutation Lia Lqa.
 From TK Require Import QuadTree_Model QuadTree_Spec QuadTree_SpecExec QuadTree_Proof_Base
                        QuadTree_Proof_Insert QuadTree_Proof_Main QuadTree_Proof_Forces
                        QuadTree_Proof_Fuel QuadTree_Proof_Spec QuadTree_Proof_Exec
-                       QuadTree_Proof_Observers QuadTree_Proof_Order.
+                       QuadTree_Proof_Observers QuadTree_Proof_Order QuadTree_Proof_Order2
+                       QuadTree_Proof_Bound.
 Import ListNotations.
 Local Open Scope Q_scope.
 
@@ -268,3 +269,33 @@ Qed.
 
 Lemma ex_auto_root : exists c, auto_root (1 # 100000) ex_data 5 = Some c /\ (5 <= length ex_data)%nat.
 Proof. eexists. split; [vm_compute; reflexivity | cbn; lia]. Qed.
+
+(* ---------- forces: order independence for every theta, quantitative error bound, leaf multiplicities ---------- *)
+
+Lemma forces_order_independent_final : forall fx fuel1 fuel2 data order1 order2 root ok1 ok2 t1 t2,
+  Permutation order1 order2 ->
+  in_root data root order1 -> NoCo data order1 ->
+  fill_order fx fuel1 data order1 (init root) = Done ok1 t1 ->
+  fill_order fx fuel2 data order2 (init root) = Done ok2 t2 ->
+  forall p i theta a, feq (forces_at p i theta t1 a) (forces_at p i theta t2 a).
+Proof. exact forces_order_independent_gen. Qed.
+
+Lemma forces_error_bound_final : forall fx fuel data order root ok t,
+  in_root data root order -> NoCo data order ->
+  fill_order fx fuel data order (init root) = Done ok t ->
+  forall theta, 0 <= theta -> 8 * (theta * theta) <= 1 ->
+  forall i p a, nth_error data i = Some p ->
+    exists r r0, forces data i theta t a = FDone r /\ feq r (fadd a r0) /\
+                 bound theta r0 (exact_sums data p i order).
+Proof. exact forces_error_bound_gen. Qed.
+
+Lemma count_ok_final : forall fuel data order root ok t,
+  in_root data root order ->
+  fill_order true fuel data order (init root) = Done ok t -> count_ok t.
+Proof.
+  intros fuel data order root ok t Hin E.
+  apply (count_ok_gen true fuel data order root ok t Hin (or_introl eq_refl) E).
+Qed.
+
+Lemma ex_theta : 0 <= (1 # 8) /\ 8 * ((1 # 8) * (1 # 8)) <= 1.
+Proof. split; vm_compute; discriminate. Qed.
